@@ -16,12 +16,30 @@ use noodles_core::Position;
 use noodles_cram::verif as cv;
 use std::io::{BufRead, Read};
 
+thread_local! {
+    /// replay: only the request with this hash is evaluated
+    static ONLY: std::cell::Cell<Option<u64>> = const { std::cell::Cell::new(None) };
+}
+
 fn emit(ctx: &mut Ctx, req: String, f: impl FnOnce() -> String) {
+    let h = fnv(req.as_bytes());
+    if let Some(only) = ONLY.with(|o| o.get()) {
+        if only != h {
+            return;
+        }
+    }
+    let suite = req.split(' ').nth(1).unwrap_or("?").to_string();
     let ans = match guarded(f) {
         Ok(a) => a,
-        Err(_) => "panic".to_string(),
+        Err(p) => {
+            // a panic of a modelled decoder is itself the property's failure, with this input
+            ctx.eval(Some(h));
+            let shown = if req.len() > 600 { format!("{}…", &req[..600]) } else { req.clone() };
+            ctx.fail(&format!("panic:corr:{suite}"), format!("PANIC {p} — request `{shown}`"), format!("corr {suite} {h}"));
+            "panic".to_string()
+        }
     };
-    let key = format!("corr:{}:{}", req.split(' ').nth(1).unwrap_or("?"), ans.split([':', ' ']).take(if ans.starts_with("err") { 2 } else { 1 }).collect::<Vec<_>>().join(":"));
+    let key = format!("corr:{suite}:{}", ans.split([':', ' ']).take(if ans.starts_with("err") { 2 } else { 1 }).collect::<Vec<_>>().join(":"));
     ctx.bump(&key);
     ctx.corr(req, ans);
 }
@@ -666,4 +684,11 @@ pub fn run(ctx: &mut Ctx) {
     query_suite(ctx);
 }
 
-pub fn replay(_ctx: &mut Ctx, _case: &[String]) {}
+/// `corr <suite> <request hash>`: re-run that one request of the suite
+pub fn replay(ctx: &mut Ctx, case: &[String]) {
+    let only: Option<u64> = case.get(1).and_then(|s| s.parse().ok());
+    ONLY.with(|o| o.set(only));
+    // the suites share one PRNG stream: run them all in order, evaluating only that request
+    run(ctx);
+    ONLY.with(|o| o.set(None));
+}
